@@ -20,6 +20,7 @@ else:
         if any(name.startswith(x) for x in prefs):
             checks = own_checks[name[:3]] + (['C19', 'C20'] if name == 'c08_f3_reintroduced' else [])
             jobs.append((name, p, checks))
+commit = subprocess.run(['git','-C','/verif','rev-parse','HEAD'],capture_output=True,text=True).stdout.strip()
 q = queue.Queue()
 for j in jobs: q.put(j)
 lock = threading.Lock()
@@ -32,7 +33,7 @@ def worker(lane):
         tmp = f'/tmp/lanes/job-{lane}-{name}.diff'
         os.makedirs('/tmp/lanes', exist_ok=True)
         open(tmp, 'w').write(open(patch).read())
-        out = subprocess.run(['/verif/tools/lane.sh', str(lane), str(THREADS), tmp] + checks, capture_output=True, text=True).stdout
+        out = subprocess.run(['/verif/tools/lane.sh', str(lane), str(THREADS), commit, tmp] + checks, capture_output=True, text=True).stdout
         os.remove(tmp)
         det = {}
         for line in out.splitlines():
